@@ -453,7 +453,22 @@ fn gen_c15(r: &mut Rng, seed: u64, idx: u64) -> Scenario {
             }
         }
     }
-    tags.push(format!("unreadable{}", if unread == 0 { "0" } else if unread == n { "all" } else { "some" }));
+    tags.push(format!("unreadable{}", if unread == 0 { "0".to_string() } else if unread == n { "all".to_string() } else { format!("some{}", (unread * 4 / n.max(1)).min(3)) }));
+    if b.world.threads.first().map(|t| t.comm_fault.is_some()).unwrap_or(false) {
+        tags.push("first-unreadable".into());
+    }
+    if b.world.threads.iter().any(|t| t.comm.0.is_empty()) {
+        tags.push("empty-name".into());
+    }
+    if b.world.threads.iter().any(|t| t.comm.0.last().map(|c| *c == b' ' || *c == b'\t').unwrap_or(false)) {
+        tags.push("trailing-ws".into());
+    }
+    if b.world.threads.iter().any(|t| t.comm.0.iter().any(|c| *c >= 0x80)) {
+        tags.push("non-ascii".into());
+    }
+    if let Some(p) = pattern {
+        tags.push(format!("pattern{}", p));
+    }
     let mut opts = Opts { blamed: PID, ..Default::default() };
     if pattern.is_none() && r.chance(1, 10) {
         opts.failspots = 1 << 2;
@@ -522,7 +537,11 @@ fn gen_c05(r: &mut Rng, seed: u64) -> Scenario {
     if r.chance(1, 5) {
         opts.size_limit = size_limit_choice(r, n);
     }
-    tags.push(format!("blamed{}", which.min(6)));
+    tags.push(format!("blamed{}", which.min(7)));
+    tags.push(format!("thr{}", match n { 1 => "1", 2..=5 => "2-5", 6..=24 => "6-24", _ => "25+" }));
+    if opts.size_limit.is_some() {
+        tags.push("limit".into());
+    }
     b.world.fds.clear();
     let mut sc = simple_dump_scenario("C05", seed, "c05-attribution", b, opts);
     sc.events = events;
@@ -680,6 +699,13 @@ fn gen_c06(r: &mut Rng, seed: u64, idx: u64) -> Scenario {
             }
         }
         b.world.threads[ti].regs[R_RSP] = sp;
+        if !sweep && tags.len() < 8 {
+            let cls = if sp < ss { if ss - sp <= 0x1000 { "sp-guard" } else if ss - sp <= 0x100000 { "sp-below" } else { "sp-far-below" } } else if sp & 7 != 0 { "sp-unaligned" } else if off >= 2048 { "sp-upper-half" } else { "sp-lower-half" };
+            let cls = format!("{}{}", cls, if ti >= 20 { "@late" } else { "" });
+            if !tags.contains(&cls) {
+                tags.push(cls);
+            }
+        }
     }
     if sweep {
         tags.push(format!("sweep-off{}", (idx / 3) / 64));
@@ -737,8 +763,14 @@ fn gen_c07(r: &mut Rng, seed: u64) -> Scenario {
             _ => start + r.below(pages * 0x1000 - len + 1),
         };
         opts.app_memory.push((ptr, len));
+        let cls = format!("len{}:{}", match len { 1 => "1", 2..=17 => "2-17", 18..=4094 => "small", 4095..=4097 => "page", _ => "big" }, (ptr & 7));
+        if !tags.contains(&cls) && tags.len() < 6 {
+            tags.push(cls);
+        }
     }
+    tags.sort();
     tags.push(format!("app{}", nreg.min(3)));
+    tags.push(format!("thr{}", match n { 1 => "1", 2..=5 => "2-5", 6..=24 => "6-24", _ => "25+" }));
     if r.chance(2, 3) {
         let tid = opts.blamed;
         let (ss, sl) = stack_of(&b, tid);
